@@ -172,6 +172,9 @@ func (c *rankCache) Add(id uint64, n uint64) {
 	// unless the count is 0, which is effectively used
 	// to clear the cache value.
 	if n < c.thresholdValue && n > 0 {
+		// The row no longer qualifies; drop any older count it had,
+		// otherwise Get keeps returning a count that is no longer true.
+		delete(c.entries, id)
 		return
 	}
 
@@ -185,6 +188,8 @@ func (c *rankCache) BulkAdd(id uint64, n uint64) {
 	c.mu.Lock()
 	defer c.mu.Unlock()
 	if n < c.thresholdValue {
+		// See Add: never leave a stale count behind.
+		delete(c.entries, id)
 		return
 	}
 
